@@ -32,10 +32,46 @@ FUNCTIONS = [
     "autoarray.operators.over_sampling.uniform.OverSamplerUniform.sub_fraction",
     "autoarray.operators.over_sampling.uniform.OverSamplerUniform.slim_for_sub_slim",
 ]
-BOUNDS = {"quick": "", "thorough": ""}     # filled in below
-OUTSIDE = []
-STUBS = []
-ASSUMPTIONS = []
+BOUNDS = {
+    "quick": "SYMBOLIC (solver variables): the source-plane (y,x) position of every sub-pixel; interpolation weights and index tables of the "
+             "kernel-level checks. ENUMERATED: data masks (all 15 masks of 2x2 by forking, fixed 1x1/1x2/1x3 otherwise), per-pixel sub-size maps "
+             "from a list (sizes 1..3, adaptive), rectangular mesh shapes 3x3,3x4,4x3 (mapper) and 3x3..3x7 (overlay geometry), bounding boxes of the "
+             "anchored rectangular cases from a list of 4 (which sub-pixels attain the box: listed), overlay geometry with every coordinate symbolic and "
+             "every assignment of the 4 extremes to 2 points / listed assignments for 3 and 6 points, one mapper case with symbolic box; some sub-pixels are "
+             "confined to listed blocks of cells / listed triangles (their coordinates stay symbolic) to bound the number of paths, at least one "
+             "sub-pixel per case ranges over the whole mesh / whole plane; Delaunay vertex sets v4,v5,v6,v7 (dyadic, general position), positions within "
+             "+-4 of the centroid; index tables: all tables with <=7 mappings over <=3 source pixels by forking (symbolic weights), symbolic tables "
+             "(merge interpreter) for <=3 mappings per data pixel",
+    "thorough": "same scheme with sub sizes 1..4, meshes up to 7x8, masks of 2x3 by forking, vertex set v9, two free points per Delaunay case, symbolic-box "
+                "mapper cases with a free third point, every assignment of the extremes for 3 and 4 points, index tables with up to 10 mappings",
+}
+OUTSIDE = [
+    "Voronoi natural-neighbour mapper (excluded by the property: external C library absent)",
+    "the Delaunay triangulation itself and scipy's find_simplex (compiled qhull): the triangulation of each listed vertex set is computed natively and trusted; "
+    "points within qhull's tolerance of a facet may be assigned differently than by exact containment",
+    "neighbour lists: no real-valued input exists, so nothing is left for the solver to quantify over; rectangular 4-connectivity/symmetry for all shapes "
+    "3..6 (quick) / 3..10 (thorough) and Delaunay neighbours = triangulation edges on the listed vertex sets are executed concretely as a by-product "
+    "(shapes enumerated by forking) and reported, but they are not a solver-decided claim",
+    "rectangular cells: points closer than 1e-9 pixel to a cell line are excluded from the end-to-end matrix equality (float64 rounding of the overlay "
+    "scales makes the line itself uncertain by ~1e-16); the containment obligation covers them with bounds widened by the same 1e-9 pixel",
+    "float64 rounding in general (exact real arithmetic; 1e-9 relative tolerance where the code accumulates concrete floats such as 9 x fl(1/9))",
+    "vertex sets / meshes / sub-size maps beyond the listed ones; more than 2 unconfined sub-pixels per case",
+]
+STUBS = [
+    "scipy.spatial.Delaunay.find_simplex on symbolic points: replaced by the harness-chosen simplex index t per sub-pixel (forked over every simplex and -1, or "
+    "pinned by the case) under the contract 't >= 0: all three barycentric coordinates of the point in simplex t are >= 0' / 't = -1: in every simplex some "
+    "barycentric coordinate is < 0'; all other attributes (simplices, points, vertex_neighbor_vertices) come from the real natively computed object; "
+    "concrete replays/validation runs use the real find_simplex",
+    "np.min / np.max of arrays holding proxies (harness patch of the facade): an entry entailed by the path condition to be the extreme is returned "
+    "directly, otherwise the comparison forks (no semantic change, avoids if-then-else chains inside divisors)",
+    "np.abs of a proxy (harness patch): returns x or -x when the path condition entails the sign (two entailment queries), else the usual if-then-else",
+    "branch conditions are rewritten to sum-of-monomials form (z3.simplify som=True) before feasibility checks (pure rewriting)",
+]
+ASSUMPTIONS = [
+    "Delaunay cases: the sub-pixel lies in the closed simplex reported for it (find_simplex contract)",
+    "divisions executed by the code add 'divisor != 0' to the path condition (engine rule); for points in a non-degenerate triangle the divisor is the triangle area",
+    "anchored rectangular cases: the listed anchor sub-pixels attain the bounding box (concrete dyadic values), all other coordinates lie inside it",
+]
 EXPLORER_OPTS = {"timeout_ms": 20000, "max_paths": 20000}
 BUDGET_S = {"quick": 600, "thorough": 2300}
 TOL = 1e-9
